@@ -32,13 +32,19 @@ Ltac tie_string :=
 Lemma n_lt_2_256 : (Bip32Spec.n < 2 ^ 256)%Z.
 Proof. reflexivity. Qed.
 
-Lemma scalar_of_ser256 k : (0 <= k < Bip32Spec.n)%Z -> scalar_of (ser256 k) = k.
+Lemma bound_2_256 v : (0 <= v < Bip32Spec.n)%Z -> Z.to_N v < 256 ^ N.of_nat 32.
 Proof.
-  intros Hk. unfold scalar_of, set_bytes, ser256.
-  rewrite be_value_be_bytes.
-  - lia.
-  - pose proof n_lt_2_256. change (256 ^ N.of_nat 32) with (Z.to_N (2 ^ 256)). lia.
+  intros Hv. pose proof n_lt_2_256 as Hn.
+  assert (E : 256 ^ N.of_nat 32 = Z.to_N (2 ^ 256)) by reflexivity.
+  rewrite E. generalize dependent Bip32Spec.n. intros m Hv Hm.
+  apply Z2N.inj_lt; lia.
 Qed.
+
+Lemma set_bytes_ser256 k : (0 <= k < Bip32Spec.n)%Z -> set_bytes (ser256 k) = Z.to_N k.
+Proof. intros Hk. unfold set_bytes, ser256. apply be_value_be_bytes. apply bound_2_256. exact Hk. Qed.
+
+Lemma scalar_of_ser256 k : (0 <= k < Bip32Spec.n)%Z -> scalar_of (ser256 k) = k.
+Proof. intros Hk. unfold scalar_of. rewrite set_bytes_ser256 by exact Hk. apply Z2N.id. lia. Qed.
 
 Lemma ser256_length k : length (ser256 k) = 32%nat.
 Proof. apply be_bytes_length. Qed.
@@ -116,9 +122,6 @@ Proof.
     assert ((set_bytes (firstn 32 I) + set_bytes (xk_key k)) mod secp_nN < secp_nN) by (apply N.mod_lt; lia). lia.
 Qed.
 
-Lemma set_bytes_ser256 k : (0 <= k < Bip32Spec.n)%Z -> set_bytes (ser256 k) = Z.to_N k.
-Proof. intros Hk. pose proof (scalar_of_ser256 k Hk) as H. unfold scalar_of in H. lia. Qed.
-
 Lemma hardened_N i : (0 <= i)%Z -> (2 ^ 31 <=? Z.to_N i) = hardened i.
 Proof. intros Hi. unfold hardened. destruct (N.leb_spec (2 ^ 31) (Z.to_N i)), (Z.leb_spec (2 ^ 31) i); auto; lia. Qed.
 
@@ -151,12 +154,10 @@ Proof.
   - reflexivity.
   - destruct (Z.eqb_spec il 0) as [|_]; [contradiction|].
     specialize (Hki Hlt). destruct (Z.eqb_spec ((il + s_k nd) mod Bip32Spec.n) 0) as [|_]; [contradiction|].
-    cbn [embed_res embed_priv s_k s_c s_depth s_fp s_index]. f_equal. f_equal.
+    cbn [orb embed_res embed_priv s_k s_c s_depth s_fp s_index]. f_equal. unfold set_bytes, embed_priv.
+    cbn [s_k s_c s_depth s_fp s_index]. f_equal.
     + unfold ser256. f_equal. unfold il, parse256 in *. fold (IL (I_priv (s_k nd) (s_c nd) i)).
       set (v := be_value _ 0) in *. pose proof tie_nN.
-      apply N2Z.inj. rewrite N2Z.inj_mod, N2Z.inj_add, !Z2N.id; try lia.
-      * rewrite H. reflexivity.
-      * apply Z.mod_pos_bound. reflexivity.
-    + lia.
+      apply N2Z.inj. rewrite N2Z.inj_mod, N2Z.inj_add, !Z2N.id; try lia. Show.
 Qed.
 End Conform.
